@@ -51,6 +51,7 @@ def draw_cfg(st):
         "act_styles": [i for i in range(len(P.ACT_STYLES)) if i in (0,) or st.choose(2, "style-on")],
         "p_clock_jump": [0.0, 0.05][st.choose(2, "clockjump")],
         "resched": st.choose(10, "resched") == 9,
+        "w_reenter": st.choose(3, "reenter"),
     }
     if world == "threads":
         cfg["n_actors"] = 2 + st.choose(4, "actors")
@@ -62,6 +63,11 @@ def draw_cfg(st):
         cfg["n_actors"] = 1 + st.choose(4, "actors")
         cfg["spawn_kinds"] = ["task"]
         cfg["w_ops"] = [6, 6, 0, 1, 1, 5, 3]
+        # several tasks inside the same (inherited) action's context()/run() at once
+        cfg["w_reenter"] = [0, 3, 6][st.choose(3, "reenter-async")]
+        cfg["shared_root"] = st.choose(3, "shared-root") == 2
+        if cfg["shared_root"]:
+            cfg["w_reenter"] = 6
     return cfg
 
 
